@@ -615,8 +615,8 @@ def rule_fl_fields(cx, rep, port):
                 ok = isinstance(k, ast.Lambda) and isinstance(k.body, ast.Subscript) and isinstance(k.body.slice, ast.Constant) and k.body.slice.value == 1 and 'reverse' not in kw
             else:
                 f = s.args[0] if s.args else None
-                ref = getattr(f, 'js_function_ref', None)
-                ok = ref is not None and 'a[1] - b[1]' in node_text(ref, 400)
+                from ..idioms import difference_comparator
+                ok = f is not None and difference_comparator(f) == ('asc', '_[1]')
         rep.decide(ok, '{}.{} order'.format(mod, fn), sorts[0] if sorts else fd, 'entries ordered by record number ascending', 'the field-count entries are not ordered by ascending record number before the first two are cited')
         picks = [n for n in walk_no_nested(fd) if isinstance(n, ast.Assign) and isinstance(n.value, ast.Subscript) and isinstance(n.value.slice, ast.Constant) and n.value.slice.value in (0, 1)]
         rep.decide(sorted(pk.value.slice.value for pk in picks) == [0, 1], '{}.{} picks'.format(mod, fn), fd, 'cites entries 0 and 1', 'the warning does not cite the first two entries')
